@@ -44,7 +44,7 @@ keeps the possibility of a panic (`none`) visible: `C06_no_panic` proves it neve
 def filter : Option (List Path) → Fields → Out Fields
   | none, fs => some fs                                   -- no mask: not modified
   | some [], _ => some .nil                               -- proto.Reset
-  | some ps, fs => some (safeMsg (Mask.fromPaths ps) fs)  -- filterMessage(msg, NestedMaskFromPaths(paths))
+  | some ps, fs => some (safeMsg (nestedMask ps) fs)       -- filterMessage(msg, nestedMask(paths))
 
 def filterClone (mask : Option (List Path)) (fs : Fields) : Out Fields := filter mask fs
 
